@@ -75,26 +75,26 @@ func unhex(s string) []byte {
 // (a type name, a class definition, a container). c11Sensitive[c11Pair[i]] is a message whose decoding would
 // change if what leaver i recorded were still there.
 var c11Leavers = [][]byte{
-	unhex("72 07 5b6e6f73756368 90 91"),       // typed list of the unregistered type "[nosuch"
-	unhex("4d 06 6e6f6d617070 0161 91 5a"),    // typed map of the unregistered type "nomapp"
-	unhex("43 0161 91 0178"),                  // class definition, then the end of the input
-	unhex("43 0161 91 0178 60"),               // class definition and instance tag, field missing
-	unhex("58 92 91"),                         // list of two, one element present
-	unhex("48 0161"),                          // map: a key, then the end of the input
-	unhex("56 07 5b6e6f73756368 91 90"),       // 'V' typed list of the unregistered type
+	unhex("72 07 5b6e6f73756368 90 91"),    // typed list of the unregistered type "[nosuch"
+	unhex("4d 06 6e6f6d617070 0161 91 5a"), // typed map of the unregistered type "nomapp"
+	unhex("43 0161 91 0178"),               // class definition, then the end of the input
+	unhex("43 0161 91 0178 60"),            // class definition and instance tag, field missing
+	unhex("58 92 91"),                      // list of two, one element present
+	unhex("48 0161"),                       // map: a key, then the end of the input
+	unhex("56 07 5b6e6f73756368 91 90"),    // 'V' typed list of the unregistered type
 }
 var c11Pair = []int{0, 0, 1, 1, 2, 2, 0}
 var c11Sensitive = [][]byte{
 	unhex("58 92 72 04 5b696e74 90 91 73 90 92 93 94"), // the second typed list names its type by reference #0
-	unhex("60 91"),                                      // instance of class #0, no definition in this message
-	unhex("51 90"),                                      // reference #0, no container in this message
+	unhex("60 91"), // instance of class #0, no definition in this message
+	unhex("51 90"), // reference #0, no container in this message
 }
 
 func TestC11(t *testing.T) {
 	r := rec.For("C11")
 	cfg := zoo.DefaultCfg()
 	cfg.MaxBig, cfg.Budget, cfg.NoBigStrings = 20, 120, true
-	garbage := c14Fixed()
+	garbage := c14Small()
 	check(t, "C11", func(rt *rapid.T, c *caseInfo) {
 		kind := rapid.SampledFrom([]string{"Serializer", "Encoder", "Decoder", "Package"}).Draw(rt, "instance")
 		nv := rapid.IntRange(2, 6).Draw(rt, "nvalues")
@@ -254,7 +254,7 @@ func TestC11(t *testing.T) {
 				lastLeaver = rapid.IntRange(0, len(c11Leavers)-1).Draw(rt, "leaver")
 				return c11Leavers[lastLeaver]
 			case 0:
-				return garbage[rapid.IntRange(0, len(garbage)-6).Draw(rt, "garbage")] // not the 64 KiB bombs
+				return garbage[rapid.IntRange(0, len(garbage)-1).Draw(rt, "garbage")]
 			case 1:
 				b := enc[pickV()]
 				return b[:rapid.IntRange(0, len(b)).Draw(rt, "cut")]
